@@ -290,6 +290,8 @@ impl AbstractTree for BlobTree {
         let config = self.tree_config();
         let mut versions = self.get_version_history_lock();
 
+        let old_version = versions.latest_version().version;
+
         versions.upgrade_version(
             &config.path,
             |v| {
@@ -302,7 +304,20 @@ impl AbstractTree for BlobTree {
             },
             &config.seqno,
             &config.visible_seqno,
-        )
+        )?;
+
+        // NOTE: The tables and blob files of the replaced version are obsolete now,
+        // so their files can go as soon as the last reader lets go of them
+        // (otherwise they linger until the next recovery)
+        for table in old_version.iter_tables() {
+            table.mark_as_deleted();
+        }
+
+        for blob_file in old_version.blob_files.iter() {
+            blob_file.mark_as_deleted();
+        }
+
+        Ok(())
     }
 
     fn major_compact(&self, target_size: u64, seqno_threshold: SeqNo) -> crate::Result<()> {
